@@ -1990,11 +1990,15 @@ class VM:
             end = relative_index(args[1], arr.length) if len(args) > 1 else arr.length
 
             # A new view of the same type over the same buffer
-            return type(arr)(
+            view = type(arr)(
                 max(0, end - begin),
                 arr._buffer,
                 arr._byte_offset + begin * arr._element_size,
             )
+            constructor = self.globals.get(arr._type_name)
+            if isinstance(constructor, JSObject):
+                view._prototype = constructor.get("prototype")
+            return view
 
         def set_fn(*args):
             # TypedArray.set(array, offset)
